@@ -19,10 +19,18 @@ BINARY_TYPE = Callable[[int, int], int]
 TRINARY_TYPE = Callable[[int, int, int], int]
 
 
+def int_to_str(value: int) -> str:
+    """the number in decimal; in hex if it is too long for python's int->str conversion (which raises ValueError)."""
+    try:
+        return str(value)
+    except ValueError:
+        return hex(value)
+
+
 def _pow(base: int, exp: int) -> int:
     """integer power. rejects negative exponents (they'd yield a non-integer)."""
     if exp < 0:
-        raise FlipJumpExprException(f'** got a negative exponent: {base} ** {exp}')
+        raise FlipJumpExprException(f'** got a negative exponent: {int_to_str(base)} ** {int_to_str(exp)}')
     return int(base**exp)  # int() since (int ** non-negative-int) is always an int
 
 
@@ -158,7 +166,7 @@ class Expr:
         if isinstance(self.value, str):
             return self.value
         if isinstance(self.value, int):
-            return str(self.value)
+            return int_to_str(self.value)
         raise FlipJumpExprException(f'bad expression: {self.value} (of type {type(self.value)})')
 
     def __repr__(self) -> str:
